@@ -227,8 +227,15 @@ def family_b(sim):
             # (adjustPoolsize / stop() racing with the creator's own check get no verdict)
             if not state["limit_moved"] and not stop_called[0]:
                 sim.check("worker-created-within-limit", live < lim, "threadpool", "worker thread created while %d live workers exist and the limit is %d" % (live, lim))
+            self._idx = len(created)   # Team keeps idle workers in a set: hash by creation order, not by address
             created.append(self)
             real_TW.__init__(self, startThread, queue)
+
+        def __hash__(self):
+            return self._idx
+
+        def __eq__(self, o):
+            return self is o
 
         def quit(self):
             quit_calls.append(self)
